@@ -4,6 +4,7 @@ package main
 
 import (
 	"fmt"
+	"go/constant"
 	"go/token"
 	"go/types"
 	"sort"
@@ -344,4 +345,110 @@ func lastDecodeFailed(st *State) bool {
 		}
 	}
 	return last == "decode-err"
+}
+
+// ---------------------------------------------------------------- T-DECODER
+
+func init() {
+	register(&Rule{ID: "T-DECODER", Props: []string{"C04", "C11", "C16", "C18", "C03", "C08"}, Floor: 1,
+		Doc: "The lexer's rune decoder — the primitive every other lexer rule takes on trust — by interpretation on the cell model with the library decoder and byte reads as primitives: it reports success only with the character that stands at the position and that character's width (a byte it only read must be pinned to ASCII and the width be 1), and fails with an error exactly on the paths on which the library decoder failed or the position is known to be the end of the text",
+		Run: ruleTDecoder})
+}
+
+func ruleTDecoder(p *Program, r *Reporter) {
+	d := newLexDom(p)
+	if d.why != "" {
+		r.Unknown(token.NoPos, "lexer model", d.why)
+		return
+	}
+	fn := d.decodeFn
+	key := "lexer." + fn.Name()
+	e, st := d.start()
+	outs := e.Run(fn, []AV{avPtr{d.lobj, ""}, d.base}, st)
+	if e.Aborted != "" {
+		r.Unknown(fn.Pos(), key, "path enumeration aborted: "+e.Aborted)
+		return
+	}
+	okN, errN := 0, 0
+	bad := ""
+	var badPos token.Pos
+	fail := func(pos token.Pos, msg string) {
+		if bad == "" {
+			bad, badPos = msg, pos
+		}
+	}
+	for _, o := range outs {
+		if o.Panic {
+			fail(fn.Pos(), "a path of the decoder panics")
+			continue
+		}
+		if o.Cut || o.Ret == nil || len(o.Res) != 3 {
+			continue
+		}
+		for _, ev := range o.St.Trace {
+			if ev.Kind == "misstep" || ev.Kind == "runtime-panic" {
+				fail(ev.Pos, ev.Note)
+			}
+		}
+		_, nhi, _ := o.St.intRange(d.ncells)
+		endKnown := nhi < 1
+		if !isDefNil(o.Res[2]) {
+			errN++
+			if !lastDecodeFailed(o.St) && !endKnown {
+				fail(o.Ret.Pos(), "an error is returned on a path on which the text goes on and the character at the position is well-formed")
+			}
+			continue
+		}
+		// success
+		if endKnown || lastDecodeFailed(o.St) {
+			fail(o.Ret.Pos(), "success is reported on a path on which the position is the end of the text or the library decoder failed")
+			continue
+		}
+		if d.nRunes(o.St) < 1 {
+			fail(o.Ret.Pos(), "success is reported without looking at the text")
+			continue
+		}
+		rv, sv := d.rune(o.St, 1)
+		sameRune := avKey(o.Res[0]) == avKey(rv)
+		if c, ok := o.Res[0].(avConst); ok {
+			if k, known := o.St.KnownInt(rv); known && c.v.Kind() == constant.Int {
+				if cv, exact := constant.Int64Val(c.v); exact && cv == k {
+					sameRune = true
+				}
+			}
+		}
+		if !sameRune {
+			fail(o.Ret.Pos(), "the rune returned ("+renderVal(o.Res[0])+") is not the character at the position")
+			continue
+		}
+		switch d.kind(o.St, 1) {
+		case "dec":
+			if avKey(o.Res[1]) != avKey(sv) {
+				if k1, ok1 := o.St.KnownInt(o.Res[1]); !ok1 || func() bool { k2, ok2 := o.St.KnownInt(sv); return !ok2 || k1 != k2 }() {
+					fail(o.Ret.Pos(), "the width returned ("+renderVal(o.Res[1])+") is not the width of the decoded character")
+					continue
+				}
+			}
+		default:
+			// only read as a byte: it stands for itself only when the path pins it to ASCII, and then it is one byte wide
+			if !d.isASCII(o.St, 1) {
+				lo, hi, _ := o.St.intRange(rv)
+				fail(o.Ret.Pos(), fmt.Sprintf("a byte that was only read, not decoded, and that the path confines to [%d, %d] only (not to ASCII) is returned as a character: a byte of 0x80 and above is part of a longer sequence or ill-formed", lo, hi))
+				continue
+			}
+			if k, ok := o.St.KnownInt(o.Res[1]); !ok || k != 1 {
+				fail(o.Ret.Pos(), "an ASCII byte is returned with a width other than 1")
+				continue
+			}
+		}
+		okN++
+	}
+	switch {
+	case bad != "":
+		r.Bad(badPos, key, bad)
+	case okN == 0 || errN == 0:
+		r.Unknown(fn.Pos(), key, fmt.Sprintf("%d success and %d error paths; both are expected", okN, errN))
+	default:
+		r.OK(fn.Pos(), key, fmt.Sprintf("%d success paths return the character at the position with its width, %d error paths follow a failed decode or the end of the text", okN, errN))
+	}
 }
